@@ -173,6 +173,7 @@ def _rmcp_slice_and_index(fn, rel):
 # ======================================================================== shape (tiny loop AST)
 # must list the constructors of `Sym` in lean/PyIpmi/Model/LoopAst.lean
 SYMS = {'CMDID_SEND_MESSAGE', 'NETFN_APP', 'IOError', 'OSError', 'IpmbHeaderReq', 'IpmiTimeoutError', 'RetryError',
+        'NotSupportedError',
         '_dev', '_sock', '_inc_sequence_number', '_drain_socket', '_q', '_receive_ipmi_msg', '_receive_raw',
         '_send_ipmi_msg', '_send_raw', 'gettimeout', 'settimeout', 'recvfrom', 'verify', 'array',
         'cmdid', 'constants', 'decode_bridged_message', 'empty', 'encode_bridged_message', 'encode_ipmb_msg', 'get',
